@@ -187,6 +187,112 @@ def run_case(case):
             'sources': sorted(o.get_event_sources().keys()) if o is not None else None}
 
 
+# ---- the transcoder test harness: a mediator whose output is read back into an event collection ------------
+
+H_NAMES = ['alice', 'bob', 'carol']
+H_PARENTS = ['%040x' % i for i in (1, 2, 3)]
+H_FOREIGN = [None, '1', 'two']
+
+
+def gen_harness_case(rng):
+    recs = []
+    for _ in range(rng.randint(1, 6)):
+        recs.append({'type': 'ra', 'name': rng.choice(H_NAMES), 'sub': {'n': rng.choice([0, 7, 255])}, 'flag': rng.choice([True, False]),
+                     'tags': rng.sample(['t1', 't2', 't3'], rng.randint(0, 2)), 'items': [],
+                     'parent': rng.choice([None] + H_PARENTS), 'fa': rng.choice(H_FOREIGN)})
+    return {'kind': 'harness', 'records': recs}
+
+
+def harness_transcoder():
+    from edxml.transcode.object import ObjectTranscoder
+    cfg = SETUP['ra']
+
+    class T(ObjectTranscoder):
+        TYPES = [cfg['et']]
+        TYPE_MAP = {'ra': cfg['et']}
+        TYPE_PROPERTIES = {cfg['et']: dict(cfg['props'])}
+        TYPE_OPTIONAL_PROPERTIES = {cfg['et']: list(cfg['optional'])}
+        TYPE_MULTI_VALUED_PROPERTIES = {cfg['et']: list(cfg['multi'])}
+        TYPE_HASHED_PROPERTIES = {cfg['et']: ['name']}
+        TYPE_PROPERTY_MERGE_STRATEGIES = {cfg['et']: {'tags': 'add', 'n': 'any', 'flag': 'any', 'first': 'any'}}
+        PROPERTY_MAP = {cfg['et']: dict(cfg['map'])}
+
+        def create_object_types(self, ontology):
+            for name, dt in OBJECT_TYPES.items():
+                ontology.create_object_type(name, data_type=dt)
+
+        def post_process(self, event, input_record):
+            # parents and foreign attributes come from the record
+            if input_record.get('parent'):
+                event.set_parents([input_record['parent']])
+            if input_record.get('fa') is not None:
+                event.set_foreign_attributes({'{http://foreign.example/ns}x': input_record['fa']})
+            yield event
+    return T
+
+
+def full_view(e):
+    v = gen.event_view(e)
+    return {'type': v['type'], 'source': v['source'], 'props': v['props'], 'atts': v['atts'], 'parents': v['parents'], 'foreign': v['foreign']}
+
+
+def run_harness(case):
+    """The records through ObjectTranscoderTestHarness, and through the real mediator followed by a parser and
+    EventCollection.resolve_collisions(): the harness documents itself as exactly that."""
+    from edxml.transcode.object import ObjectTranscoderTestHarness, ObjectTranscoderMediator
+    from edxml import EDXMLPullParser, EventCollection
+    logging.disable(logging.CRITICAL)
+    T = harness_transcoder()
+    out = {}
+    try:
+        h = ObjectTranscoderTestHarness(T(), 'ra')
+        for rec in case['records']:
+            h.process_object(rec, close=False)
+        h.close()
+        out['harness'] = sorted((full_view(e) for e in h.events), key=lambda v: json.dumps(v, sort_keys=True))
+    except Exception as ex:
+        out['harness'] = 'raised:' + type(ex).__name__
+
+    class M(ObjectTranscoderMediator):
+        TYPE_FIELD = 'type'
+    try:
+        buf = io.BytesIO()
+        m = M(buf)
+        m.register('ra', T())
+        m.add_event_source('/test/harness/')
+        m.set_event_source('/test/harness/')
+        for rec in case['records']:
+            m.process(rec)
+        m.close()
+        coll = EventCollection()
+
+        class P(EDXMLPullParser):
+            def _parsed_ontology(self, ontology):
+                coll.update_ontology(ontology)
+
+            def _parsed_event(self, event):
+                coll.append(event)
+        P().parse(io.BytesIO(buf.getvalue()))
+        out['mediator'] = sorted((full_view(e) for e in coll.resolve_collisions()), key=lambda v: json.dumps(v, sort_keys=True))
+    except Exception as ex:
+        out['mediator'] = 'raised:' + type(ex).__name__
+    return out
+
+
+def harness_expected(case):
+    """What the records amount to: one logical event per name; tags united, parents united; the rest from one record."""
+    by_name = {}
+    for rec in case['records']:
+        g = by_name.setdefault(rec['name'], {'tags': set(), 'parents': set(), 'n': set(), 'flag': set(), 'fa': []})
+        g['tags'].update(rec['tags'])
+        if rec.get('parent'):
+            g['parents'].add(rec['parent'])
+        g['n'].add(str(rec['sub']['n']))
+        g['flag'].add('true' if rec['flag'] else 'false')
+        g['fa'].append(rec.get('fa'))
+    return by_name
+
+
 # ---- the independent expectation ------------------------------------------------------------------------
 
 def lookup(rec, path):
@@ -307,6 +413,8 @@ class C17(Property):
                 'sources); non-trivial = at least one written and one rejected event; distinct by content')
 
     def generate(self, rng, tier):
+        for _ in range(40 if tier == 'quick' else 800):
+            yield gen_harness_case(rng)
         for i in range(200 if tier == 'quick' else 5000):
             case = gen_case(rng)
             if i % 8 == 7:
@@ -321,6 +429,8 @@ class C17(Property):
             yield case
 
     def observe(self, case):
+        if case.get('kind') == 'harness':
+            return run_harness(case)
         return run_case(case)
 
     # -- model: abstract the case into mediator machine ops
@@ -354,6 +464,8 @@ class C17(Property):
         return ops, decided
 
     def requests(self, case):
+        if case.get('kind') == 'harness':
+            return []
         types = ['type.a', 'type.b'] + (['type.f'] if case['fallback'] else [])
         ops, _ = self.abstract_ops(case)
         req = {'op': 'mediator', 'types': types, 'ignoreInvalid': case['ignore_invalid'], 'sources': ['/src/a/'], 'cur': '/src/a/',
@@ -363,6 +475,8 @@ class C17(Property):
         return [req]
 
     def predict(self, case, replies):
+        if case.get('kind') == 'harness':
+            return 'undecided'
         r = replies[0]
         ops, decided = self.abstract_ops(case)
         calls = [('edxml:EDXMLEventValidationError' if v == 'EDXMLEventValidationError' else None) if d else 'undecided'
@@ -380,6 +494,8 @@ class C17(Property):
                 'sources': sorted(set(r['sources'])) if all_decided else 'undecided'}
 
     def fill_undecided(self, case, obs, pred):
+        if pred == 'undecided':
+            return obs
         pred['calls'] = [o if p == 'undecided' else p for o, p in zip(obs['calls'], pred['calls'])]
         if pred['events'] == 'undecided':
             pred['events'] = obs['events']
@@ -406,6 +522,8 @@ class C17(Property):
         return out
 
     def oracle(self, case, obs):
+        if case.get('kind') == 'harness':
+            return self.harness_oracle(case, obs)
         if obs['parse'] is not None:
             return 'a validating parser rejects the output of the mediator: %s' % obs['parse']
         for op, c in zip(case['ops'], obs['calls']):
@@ -438,16 +556,54 @@ class C17(Property):
                 return 'the event generated from a valid record is missing from the output (or out of order): %s' % json.dumps(w, ensure_ascii=False)[:300]
         return None
 
+    def harness_oracle(self, case, obs):
+        h, m = obs['harness'], obs['mediator']
+        if isinstance(h, str):
+            return 'the transcoder test harness %s on valid records' % h
+        if isinstance(m, str):
+            return 'the mediator pipeline %s on valid records' % m
+        if h != m:
+            return ('the test harness holds other events than the mediator output read back and resolved: %s vs %s'
+                    % (json.dumps(h, ensure_ascii=False)[:400], json.dumps(m, ensure_ascii=False)[:400]))
+        want = harness_expected(case)
+        if len(h) != len(want):
+            return 'the harness holds %d logical events, the records describe %d' % (len(h), len(want))
+        for ev in h:
+            props = dict((k, v) for k, v in ev['props'])
+            g = want.get(props.get('name', [None])[0])
+            if g is None:
+                return 'the harness holds an event that no record describes: %s' % json.dumps(ev, ensure_ascii=False)[:300]
+            if sorted(props.get('tags', [])) != sorted(g['tags']):
+                return 'tags of %s: %r, the records give %r' % (props['name'], props.get('tags'), sorted(g['tags']))
+            if sorted(ev['parents']) != sorted(g['parents']):
+                return 'parents of %s: %r, the records give %r' % (props['name'], ev['parents'], sorted(g['parents']))
+            fas = [f for f in g['fa'] if f is not None]
+            got = [v for k, v in ev['foreign']]
+            if (got and got[0] not in fas) or (not got and fas and all(f is not None for f in g['fa'])):
+                return 'foreign attributes of %s: %r, the records give %r' % (props['name'], ev['foreign'], g['fa'])
+        return None
+
     def neighbours(self, case, rng):
+        if case.get('kind') == 'harness':
+            return [gen_harness_case(rng) for _ in range(20)]
         return [gen_case(rng) for _ in range(30)]
 
     def reductions(self, case):
+        if case.get('kind') == 'harness':
+            recs = case['records']
+            for i in range(len(recs)):
+                if len(recs) > 1:
+                    yield dict(case, records=recs[:i] + recs[i + 1:])
+            return
         ops = case['ops']
         for i in range(len(ops)):
             if len(ops) > 1:
                 yield dict(case, ops=ops[:i] + ops[i + 1:])
 
     def nontrivial_obs(self, case, obs):
+        if case.get('kind') == 'harness':
+            names = [r['name'] for r in case['records']]
+            return json.dumps(case, sort_keys=True) if len(names) != len(set(names)) else None
         if not isinstance(obs, dict) or not obs.get('events'):
             return None
         rejected = any(status == 'invalid' for op in case['ops'] if op[0] == 'record' for status, _et, _exp in classify_all(case, op[1]))
@@ -455,6 +611,8 @@ class C17(Property):
         return json.dumps(case, sort_keys=True, default=str) if rejected else None
 
     def sample_view(self, case):
+        if case.get('kind') == 'harness':
+            return case
         return {'calls': [op[0] for op in case['ops']], 'ignore_invalid': case['ignore_invalid'], 'fallback': case['fallback']}
 
 
